@@ -1,6 +1,7 @@
 import ApdVerif.Gen.ImpTrans
 import ApdVerif.Imp.TransOps
 import ApdVerif.Props.GenTieImp
+import ApdVerif.Lemmas.C05TransLemmas
 /-!
 # Regenerated tie, store level, composite functions: the programs of `ApdVerif/Gen/ImpTrans.lean` (written by
 harness/cmd/xlate, group `imptrans`, from the Go source) behave exactly like the hand-written programs of
@@ -465,6 +466,53 @@ theorem GenTieImpT_Context_Sqrt (fuel : Nat) (c : Ctx) (d : Cell) (x : Src) (h :
       simp only [GenTieImpT_Context_Sqrt_k1, dropAux, MaxExponent, MinExponent]
       split <;> simp [retErr]
 
+/-! ## `loop` (loop.go): the struct is a value `Loop`; the model's `LoopSt` keeps its fields `i` and `prevZ` -/
+
+theorem GenTieImpT_Context_newLoop (c : Ctx) (name : String) (arg : Src) (precision : Nat) (k : Int) (h : Heap) :
+    run (Context_newLoop c name arg precision k) h =
+      (({ c := c, arg := arg.val h, precision := (precision : Int),
+          maxIterations := 10 + (k * (precision : Int)).toNat } : Loop), h) := by
+  unfold Context_newLoop
+  simp [GenTieImp_Decimal_Set_loc0, narrow32, toU32]
+
+/-- `loop.done(z)`: the verdict is the model's `loopDone` on `(l.i, l.prevZ)`; the context, the precision and the
+iteration bound of the struct are unchanged, and on "continue" its `i` and `prevZ` are those of the model's new state -/
+theorem GenTieImpT_loop_done (l : Loop) (z : Dec) (h : Heap) :
+    ∃ l' : Loop, (run (loop_done l z) h).2 = h ∧ (run (loop_done l z) h).1.2.2 = l' ∧
+      l'.c = l.c ∧ l'.precision = l.precision ∧ l'.maxIterations = l.maxIterations ∧
+      match loopDone l.c l.precision l.maxIterations { i := l.i, prevZ := l.prevZ } z with
+      | .done => (run (loop_done l z) h).1.1 = true ∧ (run (loop_done l z) h).1.2.1 = ErrKind.none
+      | .error er => (run (loop_done l z) h).1.1 = false ∧ (run (loop_done l z) h).1.2.1 = er
+      | .continue s => (run (loop_done l z) h).1.1 = false ∧ (run (loop_done l z) h).1.2.1 = ErrKind.none ∧
+          l'.i = s.i ∧ l'.prevZ = s.prevZ := by
+  refine ⟨_, ?_, rfl, ?_⟩
+  · unfold loop_done
+    simp only [run_bind, run_ite, run_pure, ite_pair_heap]
+  · unfold loop_done loopDone
+    simp only [run_bind, run_ite, run_pure, ite_pair_heap, ite_fst, ite_snd, narrow32, Gen.bigOne, decide_eq_true_eq]
+    generalize addOp l.c l.prevZ z true = o
+    by_cases h1 : (o.err != ErrKind.none) = true
+    · simp [h1]
+    · simp only [h1, Bool.false_eq_true, if_false]
+      by_cases h2 : (o.d.sign == 0) = true
+      · simp [h2]
+      · simp only [h2, Bool.false_eq_true, if_false]
+        by_cases h3 : o.d.sign < 0
+        · simp only [h3, if_true]
+          split_ifs <;> simp_all
+        · simp only [h3, if_false]
+          split_ifs <;> simp_all
+
+/-! ## calls whose destination is a Go local (`localize`)
+
+`Imp/TransOps.lean` runs such a call as the store-level program of the method with the local virtualised
+(`localize L p v`).  By `run_localize` (Lemmas/C05TransLemmas.lean) that run is determined by the runs of `p`, so a tie
+`∀ h, run p h = run p' h` between a generated and a hand-written program carries over to their localised forms. -/
+
+theorem run_localize_congr {α : Type} (L : Cell) (p p' : Prog α) (v : Dec)
+    (hpp : ∀ h, run p h = run p' h) (h : Heap) : run (localize L p v) h = run (localize L p' v) h := by
+  rw [run_localize, run_localize, hpp]
+
 /-! AXIOMS-BEGIN -/
 #print axioms Apd.Props.GenTieImpT_Context_rootSpecials
 #print axioms Apd.Props.GenTieImpT_Context_logSpecials
@@ -481,6 +529,8 @@ theorem GenTieImpT_Context_Sqrt (fuel : Nat) (c : Ctx) (d : Cell) (x : Src) (h :
 #print axioms Apd.Props.GenTieImpT_Decimal_SetFinite_loc0
 #print axioms Apd.Props.GenTieImpT_Context_Sqrt_k1
 #print axioms Apd.Props.GenTieImpT_Context_Sqrt
+#print axioms Apd.Props.GenTieImpT_Context_newLoop
+#print axioms Apd.Props.GenTieImpT_loop_done
 /-! AXIOMS-END -/
 
 end Apd.Props
